@@ -62,8 +62,12 @@ def programs(tier):
                     if overlap and j == 0:
                         continue
                     comps = companions(j, vtype, overlap)
-                    for pos2 in (False, True):
-                        if pos2 and j not in (0, 2, 5):
+                    for pos2 in (False, True, "first", "others"):
+                        if pos2 is True and j not in (0, 2, 5):
+                            continue
+                        # a second value-dependent position on the method under test only / on the companions only
+                        # (the lookup-table strategy needs >= 4 keyed methods: j >= 3)
+                        if pos2 in ("first", "others") and (j not in (2, 3, 5) or (tier == "quick" and T not in LIT + STR[:2])):
                             continue
                         orders = [None]
                         if j <= 2 and not pos2:
@@ -75,16 +79,25 @@ def programs(tier):
 def mspecs_for(T, comps, pos2, order):
     shape = gen.SHAPES["xy"] if pos2 else gen.SHAPES["x"]
 
-    def types(t):
-        return {"x": t, "y": ["lit", 5]} if pos2 else {"x": t}
+    def types(t, role):
+        if not pos2:
+            return {"x": t}
+        if pos2 is True:
+            return {"x": t, "y": ["lit", 5]}
+        second = {"first": {"T": ["lit", 5], "comp": "int", "fb": "O"}, "others": {"T": "int", "comp": ["lit", 5], "fb": "O"}}[pos2][role]
+        return {"x": t, "y": second}
 
-    ms = [{"id": 0, "shape": shape, "types": types(T), "prio": 0}]
+    ms = [{"id": 0, "shape": shape, "types": types(T, "T"), "prio": 0}]
     for i, c in enumerate(comps):
-        ms.append({"id": i + 1, "shape": shape, "types": types(c), "prio": 0})
+        ms.append({"id": i + 1, "shape": shape, "types": types(c, "comp"), "prio": 0})
     if order is not None:
         ms = [ms[i] for i in order]
-    ms.append({"id": 99, "shape": shape, "types": types("O"), "prio": -1})
+    ms.append({"id": 99, "shape": shape, "types": types("O", "fb"), "prio": -1})
     return ms
+
+
+def second_values(pos2):
+    return [None] if not pos2 else [5] if pos2 is True else [5, 6]
 
 
 def check_program(T, comps, pos2, order, acc, only=None):
@@ -101,10 +114,10 @@ def check_program(T, comps, pos2, order, acc, only=None):
             acc.violation(dict(case0, value=None), "build-refused", {"exc": core.short_exc(e)})
             return []
         return [("build-refused", core.short_exc(e))]
-    for vn, v in CORPUS:
-        if only is not None and vn != only:
+    for (vn, v), y in itertools.product(CORPUS, second_values(pos2)):
+        if only is not None and [vn, y] != only:
             continue
-        args = (v, 5) if pos2 else (v,)
+        args = (v, y) if pos2 else (v,)
         # the property's own criterion: isinstance(value, type) must agree with the documented meaning
         doc = sem.instance(v, T)
         disc = None
@@ -142,7 +155,7 @@ def check_program(T, comps, pos2, order, acc, only=None):
             disc = disc or "ret:wrong-method"
             detail.update(expected_mid=rm.id, trace=list(trace))
         if disc:
-            case = dict(case0, value=vn)
+            case = dict(case0, value=vn, second=y)
             if acc is not None:
                 acc.violation(case, disc, detail)
             else:
@@ -177,7 +190,7 @@ def shard(shard, nshards, tier, seed):
 
 def replay(case):
     order = tuple(case["order"]) if case.get("order") else None
-    return check_program(case["type"], case["companions"], case["pos2"], order, None, only=case["value"])
+    return check_program(case["type"], case["companions"], case["pos2"], order, None, only=[case["value"], case.get("second", 5 if case["pos2"] else None)])
 
 
 def main(tier):
@@ -191,7 +204,8 @@ def main(tier):
         rule="type under test in {Literal with 1-4 values over int / str / mixed; tuple[...] arity 0-2 over int, str, Literal; list / "
              "Sequence / Collection / set / Mapping / dict element types; Regexp, StartsWith, EndsWith, HasKey; & and | of pairs "
              "(thorough: nesting depth 2)} x companions (0-5 single-valued Literal methods, same or other value type, disjoint or "
-             "sharing a value; second dependent position; all registration orders for <= 2 companions; object fallback at priority "
+             "sharing a value; a second dependent position on every method / on the method under test only / on the companions only, "
+             "called with a second argument inside and outside it; all registration orders for <= 2 companions; object fallback at priority "
              "-1) x the whole value corpus; oracle: documented meaning == isinstance(value, type) == the method runs (R1-R3 for "
              "the selection); the generated dispatcher strategies if-chain / table / counting must all occur; non-trivial = the "
              "value is an instance of the type under test",
